@@ -10,7 +10,6 @@ hashlib (written from the property statement: a writer succeeds iff the bytes it
 declared length and SHA-384 == blob hash).
 """
 import asyncio
-import concurrent.futures
 import hashlib
 import os
 import shutil
@@ -21,6 +20,7 @@ from hypothesis import strategies as st
 
 from vlib.runner import Part, Out
 from vlib import aio
+from vlib.oneworker import prepare_loop, barrier
 
 PROPERTY_ID = "C01"
 LEVEL = "exploration"
@@ -174,26 +174,6 @@ class MW:
         if self.incorrect and len(chunks) >= 2:
             dev = common_prefix_len(data, content)
             self.deviates_before_last = dev < len(data) - len(chunks[-1])
-
-
-_EXECUTOR_SET = set()
-
-
-def _prepare_loop():
-    loop = aio.get_loop()
-    if id(loop) not in _EXECUTOR_SET:
-        # one worker thread: a no-op job submitted later is a barrier behind every pending blob file write
-        loop.set_default_executor(concurrent.futures.ThreadPoolExecutor(max_workers=1))
-        _EXECUTOR_SET.add(id(loop))
-    return loop
-
-
-async def _barrier(loop):
-    for _ in range(3):
-        await asyncio.sleep(0)
-    await loop.run_in_executor(None, lambda: None)
-    for _ in range(4):
-        await asyncio.sleep(0)
 
 
 async def _run(case, out):
@@ -440,8 +420,8 @@ async def _run(case, out):
         # (no wall-clock wait: the default executor has one worker, so the no-op job of _barrier runs behind any
         # pending blob file write; two rounds because the write is only submitted when the write task first runs)
         await do_yield(3)
-        await _barrier(loop)
-        await _barrier(loop)
+        await barrier(loop)
+        await barrier(loop)
         if tasks:
             await asyncio.gather(*tasks, return_exceptions=True)
         step_check("after drain")
@@ -575,7 +555,7 @@ async def _run(case, out):
 
 def run_case(case):
     out = Out()
-    loop = _prepare_loop()
+    loop = prepare_loop()
     aio.run(_run(case, out), loop)
     return out
 
